@@ -1407,6 +1407,7 @@ func (x *Exec) applyContract(cfg *Config, f *Frame, fn *ssa.Function, c *FuncCon
 		unsupported("call from %s-mode function into %s-mode contract %s", x.mode, c.Mode, c.Key)
 	}
 	env := x.calleeEnv(cfg, fn, c, args, binds)
+	x.waitCallCheck(cfg, fn, c, args, pos)
 	if ks := strings.Fields(c.Options["waitkinds"]); len(ks) > 0 {
 		ok := false
 		for _, k := range ks {
@@ -2106,4 +2107,42 @@ func (x *Exec) mapHas(st *State, ref, key Term, m *types.Map) Term {
 	dom, _, _ := x.mapNames(m)
 	domArr := x.heapGet(st, dom, SArr(SInt, SArr(x.sortOf(m.Key()), SBool)))
 	return And(Neq(ref, IntLit(0)), Select(Select(domArr, ref), key))
+}
+
+// waitCallCheck: option wait-calls f <cond> [; g <cond>]: the function under
+// verification may park only through the listed callees, and only when the
+// condition (over its own locals and the callee's parameters, the latter by
+// their names) holds at the call - e.g. "the cursor I wait on is MY cursor".
+func (x *Exec) waitCallCheck(cfg *Config, fn *ssa.Function, c *FuncContract, args []Val, pos token.Pos) {
+	if x.c == nil || fn == nil || len(cfg.frames) != 1 {
+		return
+	}
+	spec := x.c.Options["wait-calls"]
+	if spec == "" {
+		return
+	}
+	if c.Options["waitkind"] == "" && c.Options["waitkinds"] == "" && c.Options["waits"] == "" && c.Options["park-requires"] == "" {
+		return
+	}
+	for _, part := range strings.Split(spec, ";") {
+		fs := strings.SplitN(strings.TrimSpace(part), " ", 2)
+		if len(fs) != 2 || fs[0] != c.Key {
+			continue
+		}
+		e, err := ParseExpr(fs[1])
+		if err != nil {
+			unsupported("option wait-calls: %v", err)
+		}
+		env := x.entryEnv(cfg)
+		env.frame = cfg.frames[0]
+		env.old = cfg.old
+		for k, p := range fn.Params {
+			if k < len(args) {
+				env = env.bind(p.Name(), x.valToSpec(cfg.st, args[k], p.Type()))
+			}
+		}
+		x.oblige(cfg, "wait-call", c.Key+" called with "+fs[1], x.specBool(env, e), nil, pos)
+		return
+	}
+	x.oblige(cfg, "wait-call", "parks through "+c.Key+", which option wait-calls does not list", False, nil, pos)
 }
